@@ -225,6 +225,25 @@ MEMBERS = {
     "wrapper-exc": lambda: {"exception": {"__class__": "os.system", "__exception__": True, "args": [SAFE_ARG]}},
     "wrapper-plain": lambda: {"exception": 5},
 }
+
+
+def _inner(kind):
+    if kind == "proxy":     # no methods/attrs known: iterating it or asking it for any attribute would fetch the metadata remotely
+        return {"__class__": "Pyro5.client.Proxy", "state": ["PYRO:inner@h:1", [], [], [], "hello", None]}
+    if kind == "canary":
+        return {"__class__": "vf.targets.Canary", "args": [1]}
+    return {"__class__": "Pyro5.core.URI", "state": ["PYRO", "o", None, "h", 1]}
+
+
+# a tagged dict in every argument position and under every attribute name that an exception constructor / attribute setter treats
+# specially (BaseException.args tuples its value, ExceptionGroup / SyntaxError / OSError iterate or unpack their 2nd argument, ...)
+for _k in ("proxy", "canary", "uri"):
+    MEMBERS["arg0-" + _k] = lambda _k=_k: {"args": [_inner(_k)], "attributes": {}}
+    MEMBERS["arg1-" + _k] = lambda _k=_k: {"args": [SAFE_ARG, _inner(_k)], "attributes": {}}
+    MEMBERS["arg1-list-" + _k] = lambda _k=_k: {"args": [SAFE_ARG, [_inner(_k)]], "attributes": {}}
+    for _a in ("args", "__notes__", "__cause__", "__context__", "__traceback__", "msg", "filename", "name", "x"):
+        MEMBERS["attr-%s-%s" % (_a, _k)] = lambda _k=_k, _a=_a: {"args": [SAFE_ARG], "attributes": {_a: _inner(_k)}}
+
 WRAPPERS = {
     "bare": lambda x: x,
     "list": lambda x: [1, x],
@@ -267,12 +286,17 @@ def task(unit):
             for mname, mk in MEMBERS.items():
                 if quick and mname in ("args-str", "attrs-nondict", "state-empty", "wrapper-plain") and fname not in ("True",):
                     continue
+                positional = mname.startswith(("arg0-", "arg1-", "attr-"))
+                if positional and quick and not (allowed_tag(tag, True) or allowed_tag(tag, False)):
+                    continue       # thorough: every tag
                 node = dict(mk())
                 node["__class__"] = tag
                 if flag is not None:
                     node["__exception__"] = flag
                 for wname, wrap in WRAPPERS.items():
                     if quick and wname in ("tuple", "dict") and mname != "args1":
+                        continue
+                    if positional and wname not in (("bare",) if quick else ("bare", "deep")):
                         continue
                     tree = wrap(node)
                     for sname in sorted(serializers.serializers):
